@@ -36,9 +36,6 @@ func VerifConsts() map[string]string {
 	}
 }
 
-// VerifPath exposes Rule.path().
-func VerifPath(r Rule) []string { return []string(r.path()) }
-
 // VerifTree is the package's rule tree.
 type VerifTree struct{ n *node }
 
